@@ -10,15 +10,17 @@
       (existing tables, live foreign keys) and fails on: CREATE of an existing table, a foreign
       key (inline, ADD, or re-pointed) to a table that does not exist at that moment, ALTER of a
       missing table, DROP of a missing table, DROP of a table with a live foreign key from
-      another table.
+      another table, DROP FOREIGN KEY (or re-pointing) of a key that is not live.
     [adds x] / [drops x]: the table name created / dropped by change x (SortReplay.v).
     [WF cs]: what the differ can emit (SortProofs.v): every table in at most one of
       add/drop/modify; object ids determine names; a dropped table's keys name it as child;
-      declared keys do not point at dropped tables.
+      declared keys do not point at dropped tables; the keys of a dropped table have distinct
+      symbols and a ModifyTable drops / re-points a symbol at most once.
     [consistent c cs]: created tables are new, dropped and modified ones exist, parents of
       declared keys exist or are created, every live key from another table into a dropped table
       is dropped by the change set (its table is dropped with that key listed, or a
-      DropForeignKey / ModifyForeignKey of that symbol is present). *)
+      DropForeignKey / ModifyForeignKey of that symbol is present); the keys of dropped tables and the
+      keys a ModifyTable drops or re-points are live. *)
 From Coq Require Import List Bool Arith Permutation Sorted.
 From Atlas Require Import Plan.SortModel Plan.SortDfs Plan.SortReplay Plan.SortProofs Plan.SortDialect Plan.SortExamples.
 Import ListNotations.
